@@ -4,6 +4,8 @@ from collections import OrderedDict
 import sqlalchemy as sa
 from sqlalchemy_utils import identity
 
+from .utils import versioned_column_properties, versioned_relationships
+
 
 class Operation(object):
     INSERT = 0
@@ -82,13 +84,31 @@ class Operations(object):
             self.add(Operation(target, Operation.INSERT))
 
     def add_update(self, target):
-        state_copy = copy(sa.inspect(target).committed_state)
+        state = sa.inspect(target)
+        state_copy = copy(state.committed_state)
         relationships = sa.inspect(target.__class__).relationships
         # Remove all ONETOMANY and MANYTOMANY relationships
         for rel_key, relationship in relationships.items():
             if relationship.direction.name in ['ONETOMANY', 'MANYTOMANY']:
                 if rel_key in state_copy:
                     del state_copy[rel_key]
+
+        # Only versioned attributes that were actually given a different
+        # value count: committed_state also lists attributes that were
+        # assigned the value they already had, and excluded attributes.
+        versioned_keys = set(
+            prop.key for prop in versioned_column_properties(target)
+        )
+        versioned_keys.update(
+            prop.key
+            for prop in versioned_relationships(target, versioned_keys)
+        )
+        for key in list(state_copy):
+            if (
+                key not in versioned_keys or
+                not state.attrs[key].history.has_changes()
+            ):
+                del state_copy[key]
 
         if state_copy:
             self.add(Operation(target, Operation.UPDATE))
